@@ -55,8 +55,17 @@ DevCharge == {"ChargeColumnDropped"}
 DevRecursion == {"StructDumpsRecursion"}
 DevShift == {"EndpointShift"}
 DevOrder == {"ConformerOrderLost"}
+DevStaleBond == {"StaleBondTokenCache"}
+DevStaleAtom == {"StaleAtomTokenCache"}
+EditB == {"Double", "Aromatic"}
+NoPhase == {}
+AfterCycle == {5}      \* model checking: edit after a complete cycle
+AfterWrite == {2}      \* generation: edit right after the first write (the harness completes the cycle first)
 
 View == sv
 (* generation: one line per built object (recipe for the harness + the abstract object the spec expects it to be) *)
-Emit == IF last'.act = "build" THEN PrintT(ToJson([act |-> "build", rec |-> rec', obj |-> obj'])) ELSE TRUE
+(* and one line per edit of that object (operation + the abstract object after it)                               *)
+Emit == IF last'.act = "build" THEN PrintT(ToJson([act |-> "build", rec |-> rec', obj |-> obj']))
+        ELSE IF last'.act = "edit" THEN PrintT(ToJson([act |-> "edit", n |-> edits', op |-> last'.op, obj |-> obj']))
+        ELSE TRUE
 =============================================================================
